@@ -139,6 +139,11 @@ void run_case(Ctx& c) {
                 }
                 const std::size_t pos = lo + r.a16(1) % (hi - lo);
                 buf[pos] ^= std::uint8_t(1u << (r.a(3) % 8));
+                if (pos >= macs && len >= 32 && (r.a(4) & 3) == 0) {  // the same bit in a second MAC byte: the two differences cancel in an aggregating comparison
+                    std::size_t other = macs + (pos - macs + 1 + r.a(4) / 4 % 31) % 32;
+                    buf[other] ^= std::uint8_t(1u << (r.a(3) % 8));
+                    c.label("flip_same_bit_in_two_mac_bytes");
+                }
                 what = "flip@" + std::to_string(pos) + (pos >= macs && len >= 32 ? "(mac+" + std::to_string(pos - macs) + ")" : pos < 2 ? "(hdr)" : "(body)");
                 c.label(pos >= macs && len >= 32 ? (pos - macs >= 16 ? "flip_mac_second_half" : "flip_mac_first_half") : (pos < 2 ? "flip_header" : "flip_body"));
                 break;
